@@ -8,7 +8,7 @@ EXPLANATION = (
     "From<Notification> for Option<Packet>, From<Ack> for Packet, Network::write/writev; for every match whose catch-all arm panics, the packet shapes it does not cover "
     "(variant, and Some/None of the properties field) are compared with the shapes the router, links and AckLog can construct (constructibility = aggregate constructions in non-codec code, "
     "following pattern-bound fields back to the variants they came from, skipping arms of variants that are never constructed): constructible ⊆ encodable; "
-    "(R-C20-passthrough) the Forward handed to the link carries the stored publish properties (so they survive towards MQTT 5 subscribers) and the publisher's topic alias is cleared before storage. "
+    "(R-C20-passthrough) the Forward handed to the link carries the stored publish properties (so they survive towards MQTT 5 subscribers) and the publisher's topic alias is cleared before storage; every matching filter's log stores its own clone of the publish and of its properties. "
     "(R-C20-props) the broker's v5 PUBLISH property encoder and decoder use the same identifier and MQTT 5 wire type for each of the publish properties (shared with C04's table rule), and its reader/len() count every variable-length property value once with its 2-byte prefix (shared with R-C04-prop-accounting); "
     "NOT decided: byte-level equality of topic/payload across versions (value level, see C04).")
 ASSUMPTIONS = [
@@ -252,6 +252,33 @@ def passthrough(ctx, prog):
                     takes.append((cb, bb))
     appends = [bb for bb, t in body.calls() if re.search(r"router::logs::Data::<T>::append$", callee_path(t)) and not body.is_cleanup(bb)]
     ctx.floor(rule, "Data::append calls in append_to_commitlog", len(appends), 1)
+    # every matching filter's log gets its own COPY of the publish and of its properties (the append sits in a loop
+    # over the matching filters: a moved / taken value would reach the first log only)
+    for ab in appends:
+        t = body.blocks[ab]["t"]
+        okc = False
+        detail = []
+        for s_ in flatten_src(provenance(body, t["args"][1], through_calls=[r"convert::Into<.*>>::into$", r"convert::From<.*>>::from$"])):
+            if s_.kind != "agg" or len(s_.rv.get("ops", [])) != 2:
+                continue
+            parts = []
+            for o in s_.rv["ops"]:
+                src = flatten_src(provenance(body, o))
+                cl = [x for x in src if x.kind == "call" and x.path.endswith("Clone>::clone")]
+                if src and len(cl) == len(src):
+                    args = [y for x in cl for y in flatten_src(provenance(body, x.term["args"][0]))]
+                    parts.append(sorted(set("param%d" % y.l if y.kind == "param" else y.kind + ":" + str(getattr(y, "path", "")) for y in args)))
+                else:
+                    parts.append(sorted(set(x.kind + ":" + str(getattr(x, "path", "")) for x in src)))
+            detail = parts
+            if parts == [["param2"], ["param3"]]:
+                okc = True
+        if okc:
+            ctx.ok(rule, body.id, "each matching filter's log stores (publish.clone(), properties.clone())", site=body.loc(t.get("sp")))
+        else:
+            ctx.violation(rule, body.id, "stored copy",
+                          "the value appended to each matching filter's log is not (clone of the publish, clone of its properties) — found %s: with several matching filters only the first log keeps the MQTT 5 properties" % detail,
+                          site=body.loc(t.get("sp")))
     if not takes:
         ctx.violation(rule, body.id, "topic alias not cleared", "the publisher's topic_alias property is no longer taken out before the publish is stored", site=body.fn_loc())
         return
